@@ -19,7 +19,7 @@ def tree_messages(node, out):
         tree_messages(node.start_message, out)
     if node.end_message is not None:
         tree_messages(node.end_message, out)
-    for c in node._children.values():
+    for c in node.children:
         tree_messages(c, out)
 
 
@@ -55,7 +55,7 @@ def subset_lattice(msgs, check_reachability=True):
         if check_reachability:
             got = []
             try:
-                for t in list(parser._tasks.values()) + list(done.values()):
+                for t in list(parser.incomplete_tasks()) + list(done.values()):
                     tree_messages(t.root(), got)
             except Exception as e:
                 bad("partial-tree-unavailable", {"subset": _idx(mask, n), "error": repr(e)[:200]})
@@ -68,10 +68,11 @@ def subset_lattice(msgs, check_reachability=True):
                      "extra": sorted(set(got) - set(want))[:3],
                      "dups": len(got) - len(set(got))},
                 )
+            incomplete = {t.root().task_uuid if _rooted(t) else None: t for t in parser.incomplete_tasks()}
             for u in done:
-                if u in parser._tasks:
+                if u in incomplete:
                     bad("completed-task-still-incomplete", {"subset": _idx(mask, n)})
-            for u, t in parser._tasks.items():
+            for u, t in incomplete.items():
                 if t.is_complete():
                     bad("incomplete-list-holds-complete", {"subset": _idx(mask, n)})
         for i in range(n):
@@ -114,6 +115,14 @@ def subset_lattice(msgs, check_reachability=True):
                 elif old[1] != d2:
                     bad("order-dependent-completed-tree", {"subset": _idx(nmask, n), "last_added": i})
     return len(state), transitions, viol, completions
+
+
+def _rooted(t):
+    try:
+        t.root()
+        return True
+    except Exception:
+        return False
 
 
 def _idx(mask, n):
